@@ -1,50 +1,68 @@
 (* C24: icegatherer.go -- the OnCandidate callback registered by Gather, the
-   candidate pool and flushCandidates, as an interleaving model.
-   Threads: 0 = the ICE agent's callback goroutine (serial candidate callbacks,
-   then the nil callback: assumed contract of pion/ice); S j = the j-th
-   flushCandidates call (one per SetLocalDescription).  Atomic blocks are the
-   code between the yield points gather.cb.{enter,emit,nil-pool} and
-   gather.flush.emit.  Part B is the code before commit "fix: report the
-   end of candidates once" (flush emitted nil whenever the state was complete).
-   No proofs here. *)
+   candidate pool, flushCandidates and ICE restarts, as an interleaving model.
+
+   Threads: TAgent = the ICE agent's notifier goroutine (it delivers what is
+   queued, one callback at a time: assumed contract of pion/ice); TFlush j =
+   the j-th flushCandidates call (one per SetLocalDescription); TRestart = an
+   ICE restart (ICETransport.restart: agent.Restart, then Gather again): it
+   starts the next gathering cycle.  Atomic blocks are the code between the
+   yield points gather.cb.{enter,emit,nil-pool} and gather.flush.emit.
+
+   Every delivery carries, as a ghost, the number of the gathering cycle it
+   belongs to (the code does not see it): "per gathering cycle" properties are
+   stated on the handler sequence filtered by that tag.
+
+   [fx]: true = the code after "fix: the flush that is reporting pooled
+   candidates reports the end of candidates" (candidatePoolFlushing), false =
+   the code before it, kept for the recorded witness.
+   Part B is the code before the first repair (flush emitted nil whenever the
+   state was complete).  No proofs here. *)
 From Coq Require Import List Arith Bool.
 Import ListNotations.
 
 Definition cand := nat.
+Notation tcand := (nat * cand)%type (only parsing).          (* cycle tag, candidate *)
+Notation item := (nat * option cand)%type (only parsing).    (* cycle tag, candidate or nil *)
 
 Inductive gst := GGathering | GComplete.
 
 (* where the agent's goroutine is *)
 Inductive aphase :=
-| AEnter                 (* at the top of a callback (or waiting for the next one) *)
-| ACandEmit (c : cand)   (* candidate not pooled; before onLocalCandidateHandler(&c) *)
-| ANilPool               (* nil: state stored complete; before the pool lock *)
-| ANilEmit               (* nil not swallowed; before onLocalCandidateHandler(nil) *)
-| ADone.
+| AEnter                          (* between callbacks *)
+| ACandEmit (k : nat) (c : cand)  (* candidate not pooled; before onLocalCandidateHandler(&c) *)
+| ANilPool (k : nat)              (* nil: state stored complete; before the pool lock *)
+| ANilEmit (k : nat).             (* nil not kept back; before onLocalCandidateHandler(nil) *)
 
 (* where a flushCandidates call is *)
 Inductive fphase :=
 | FStart
-| FEmit (cs : list cand) (nil_after : bool)  (* before emitting the head of cs, or the nil *)
+| FEmit (cs : list tcand) (na : option nat)
+      (* before reporting the head of cs; na: (fx = false only) the kept-back nil taken at the start *)
+| FNil (k : nat)                  (* before reporting nil *)
 | FDone.
 
 Record st := {
-  gstate : gst;                  (* g.state (atomic) *)
-  pool   : option (list cand);   (* g.candidatePool; None = nil slice *)
-  psize  : nat;                  (* g.iceCandidatePoolSize *)
-  nilp   : bool;                 (* end of candidates swallowed by the pool, not yet flushed *)
-  out    : list (option cand);   (* OnLocalCandidate invocations so far; None = nil *)
-  a_rest : list cand;            (* candidates the agent will still deliver *)
+  gstate : gst;                   (* g.state (atomic) *)
+  pool   : option (list tcand);   (* g.candidatePool; None = nil slice *)
+  psize  : nat;                   (* g.iceCandidatePoolSize *)
+  nilp   : option nat;            (* g.candidatePoolComplete (Some k: the end of cycle k is kept back) *)
+  flushing : nat;                 (* g.candidatePoolFlushing *)
+  out    : list item;             (* OnLocalCandidate invocations so far *)
+  a_queue : list item;            (* what the agent will still deliver, in this order *)
   a_ph   : aphase;
-  fl     : list fphase
+  fl     : list fphase;
+  ncyc   : nat;                   (* ghost: gathering cycles started so far *)
+  cycles : list (list cand * bool)
+      (* cycles the restarts still to come will start: candidates that get
+         delivered, and whether the cycle completes (delivers nil) or is cancelled
+         by the next restart before it does *)
 }.
 
 Definition pool_active (s : st) : bool :=
   match pool s with Some _ => Nat.ltb 0 (psize s) | None => false end.
 
-Definition set_agent (s : st) (rest : list cand) (ph : aphase) : st :=
-  {| gstate := gstate s; pool := pool s; psize := psize s; nilp := nilp s; out := out s;
-     a_rest := rest; a_ph := ph; fl := fl s |}.
+Definition cycle_items (k : nat) (c : list cand * bool) : list item :=
+  map (fun x => (k, Some x)) (fst c) ++ (if snd c then [(k, None)] else []).
 
 Fixpoint set_nth {A} (i : nat) (x : A) (l : list A) {struct l} : list A :=
   match l, i with
@@ -53,113 +71,170 @@ Fixpoint set_nth {A} (i : nat) (x : A) (l : list A) {struct l} : list A :=
   | a :: t, S j => a :: set_nth j x t
   end.
 
-(* next position of a flush after emitting: more candidates, then the nil, then return *)
-Definition fnext (cs : list cand) (b : bool) : fphase :=
-  match cs with
-  | _ :: _ => FEmit cs b
-  | [] => if b then FEmit [] true else FDone
-  end.
+Definition upd (s : st) (g : gst) (p : option (list tcand)) (ps : nat) (np : option nat) (f : nat)
+    (o : list item) (q : list item) (a : aphase) (l : list fphase) : st :=
+  {| gstate := g; pool := p; psize := ps; nilp := np; flushing := f; out := o; a_queue := q;
+     a_ph := a; fl := l; ncyc := ncyc s; cycles := cycles s |}.
 
 (* ---------- agent ---------- *)
-Definition agent_step (s : st) : option st :=
+Definition agent_step (fx : bool) (s : st) : option st :=
   match a_ph s with
   | AEnter =>
-      match a_rest s with
-      | c :: r =>
+      match a_queue s with
+      | [] => None
+      | (k, Some c) :: r =>
           (* candidate != nil: lock; pool active -> append, return *)
           if pool_active s then
-            Some {| gstate := gstate s;
-                    pool := match pool s with Some l => Some (l ++ [c]) | None => None end;
-                    psize := psize s; nilp := nilp s; out := out s;
-                    a_rest := r; a_ph := AEnter; fl := fl s |}
-          else Some (set_agent s r (ACandEmit c))
-      | [] =>
+            Some (upd s (gstate s)
+                    (match pool s with Some l => Some (l ++ [(k, c)]) | None => None end)
+                    (psize s) (nilp s) (flushing s) (out s) r AEnter (fl s))
+          else Some (upd s (gstate s) (pool s) (psize s) (nilp s) (flushing s) (out s) r
+                       (ACandEmit k c) (fl s))
+      | (k, None) :: r =>
           (* candidate == nil: setState(complete); onGatheringCompleteHandler() *)
-          Some {| gstate := GComplete; pool := pool s; psize := psize s; nilp := nilp s;
-                  out := out s; a_rest := []; a_ph := ANilPool; fl := fl s |}
+          Some (upd s GComplete (pool s) (psize s) (nilp s) (flushing s) (out s) r (ANilPool k) (fl s))
       end
-  | ACandEmit c =>
-      Some {| gstate := gstate s; pool := pool s; psize := psize s; nilp := nilp s;
-              out := out s ++ [Some c]; a_rest := a_rest s; a_ph := AEnter; fl := fl s |}
-  | ANilPool =>
-      (* lock; pool active -> remember the swallowed nil, return *)
-      if pool_active s then
-        Some {| gstate := gstate s; pool := pool s; psize := psize s; nilp := true;
-                out := out s; a_rest := a_rest s; a_ph := ADone; fl := fl s |}
-      else Some (set_agent s (a_rest s) ANilEmit)
-  | ANilEmit =>
-      Some {| gstate := gstate s; pool := pool s; psize := psize s; nilp := nilp s;
-              out := out s ++ [None]; a_rest := a_rest s; a_ph := ADone; fl := fl s |}
-  | ADone => None
+  | ACandEmit k c =>
+      Some (upd s (gstate s) (pool s) (psize s) (nilp s) (flushing s) (out s ++ [(k, Some c)])
+              (a_queue s) AEnter (fl s))
+  | ANilPool k =>
+      (* lock; pool active (fx: or a flush is reporting) -> keep the nil back, return *)
+      if pool_active s || (fx && Nat.ltb 0 (flushing s)) then
+        Some (upd s (gstate s) (pool s) (psize s) (Some k) (flushing s) (out s) (a_queue s) AEnter (fl s))
+      else Some (upd s (gstate s) (pool s) (psize s) (nilp s) (flushing s) (out s) (a_queue s)
+                   (ANilEmit k) (fl s))
+  | ANilEmit k =>
+      Some (upd s (gstate s) (pool s) (psize s) (nilp s) (flushing s) (out s ++ [(k, None)])
+              (a_queue s) AEnter (fl s))
   end.
 
 (* ---------- flushCandidates ---------- *)
-Definition flush_step (s : st) (j : nat) : option st :=
+(* fx: all candidates reported: lock; flushing--; the last flush takes the kept-back nil *)
+Definition flush_finish (s : st) (j : nat) : st :=
+  let f := pred (flushing s) in
+  match nilp s with
+  | Some k =>
+      if Nat.eqb f 0
+      then upd s (gstate s) (pool s) (psize s) None f (out s) (a_queue s) (a_ph s) (set_nth j (FNil k) (fl s))
+      else upd s (gstate s) (pool s) (psize s) (nilp s) f (out s) (a_queue s) (a_ph s) (set_nth j FDone (fl s))
+  | None => upd s (gstate s) (pool s) (psize s) None f (out s) (a_queue s) (a_ph s) (set_nth j FDone (fl s))
+  end.
+
+(* position after the candidates taken at the start (fx = false) *)
+Definition fnextp (cs : list tcand) (na : option nat) : fphase :=
+  match cs with
+  | _ :: _ => FEmit cs na
+  | [] => match na with Some k => FNil k | None => FDone end
+  end.
+
+Definition flush_step (fx : bool) (s : st) (j : nat) : option st :=
   match nth_error (fl s) j with
   | Some FStart =>
-      (* lock; candidates := pool; pool = nil; size = 0; take the swallowed nil *)
+      (* lock; candidates := pool; pool = nil; size = 0; ... unlock *)
       let cs := match pool s with Some l => l | None => [] end in
-      Some {| gstate := gstate s; pool := None; psize := 0; nilp := false; out := out s;
-              a_rest := a_rest s; a_ph := a_ph s;
-              fl := set_nth j (fnext cs (nilp s)) (fl s) |}
-  | Some (FEmit (c :: r) b) =>
-      Some {| gstate := gstate s; pool := pool s; psize := psize s; nilp := nilp s;
-              out := out s ++ [Some c]; a_rest := a_rest s; a_ph := a_ph s;
-              fl := set_nth j (fnext r b) (fl s) |}
-  | Some (FEmit [] true) =>
-      Some {| gstate := gstate s; pool := pool s; psize := psize s; nilp := nilp s;
-              out := out s ++ [None]; a_rest := a_rest s; a_ph := a_ph s;
-              fl := set_nth j FDone (fl s) |}
-  | Some (FEmit [] false) =>   (* not a position of the code (fnext never yields it) *)
-      Some {| gstate := gstate s; pool := pool s; psize := psize s; nilp := nilp s;
-              out := out s; a_rest := a_rest s; a_ph := a_ph s;
-              fl := set_nth j FDone (fl s) |}
+      if fx then
+        let s1 := upd s (gstate s) None 0 (nilp s) (S (flushing s)) (out s) (a_queue s) (a_ph s)
+                    (set_nth j (FEmit cs None) (fl s)) in
+        match cs with
+        | [] => Some (flush_finish s1 j)     (* nothing to report: straight on to the end *)
+        | _ :: _ => Some s1
+        end
+      else
+        Some (upd s (gstate s) None 0 None (flushing s) (out s) (a_queue s) (a_ph s)
+                (set_nth j (fnextp cs (nilp s)) (fl s)))
+  | Some (FEmit (c :: r) na) =>
+      let s1 := upd s (gstate s) (pool s) (psize s) (nilp s) (flushing s)
+                  (out s ++ [(fst c, Some (snd c))]) (a_queue s) (a_ph s) (fl s) in
+      if fx then
+        match r with
+        | [] => Some (flush_finish s1 j)
+        | _ :: _ => Some (upd s1 (gstate s1) (pool s1) (psize s1) (nilp s1) (flushing s1) (out s1)
+                            (a_queue s1) (a_ph s1) (set_nth j (FEmit r na) (fl s1)))
+        end
+      else
+        Some (upd s1 (gstate s1) (pool s1) (psize s1) (nilp s1) (flushing s1) (out s1)
+                (a_queue s1) (a_ph s1) (set_nth j (fnextp r na) (fl s1)))
+  | Some (FEmit [] _) =>   (* not a position of the code *)
+      Some (upd s (gstate s) (pool s) (psize s) (nilp s) (flushing s) (out s) (a_queue s) (a_ph s)
+              (set_nth j FDone (fl s)))
+  | Some (FNil k) =>
+      Some (upd s (gstate s) (pool s) (psize s) (nilp s) (flushing s) (out s ++ [(k, None)])
+              (a_queue s) (a_ph s) (set_nth j FDone (fl s)))
   | Some FDone | None => None
   end.
 
-Definition step (s : st) (t : nat) : option st :=
-  match t with
-  | O => agent_step s
-  | S j => flush_step s j
+(* ---------- ICE restart: agent.Restart(); Gather(): setState(gathering), a new
+   callback, GatherCandidates() ---------- *)
+Definition restart_step (s : st) : option st :=
+  match cycles s with
+  | [] => None
+  | c :: rest =>
+      Some {| gstate := GGathering; pool := pool s; psize := psize s; nilp := nilp s;
+              flushing := flushing s; out := out s;
+              a_queue := a_queue s ++ cycle_items (ncyc s) c;
+              a_ph := a_ph s; fl := fl s; ncyc := S (ncyc s); cycles := rest |}
   end.
 
-Fixpoint run (s : st) (sch : list nat) : st :=
+Inductive tid := TAgent | TFlush (j : nat) | TRestart.
+
+Definition step (fx : bool) (s : st) (t : tid) : option st :=
+  match t with
+  | TAgent => agent_step fx s
+  | TFlush j => flush_step fx s j
+  | TRestart => restart_step s
+  end.
+
+Fixpoint run (fx : bool) (s : st) (sch : list tid) : st :=
   match sch with
   | [] => s
-  | t :: rest => match step s t with
-                 | Some s' => run s' rest
-                 | None => run s rest
+  | t :: rest => match step fx s t with
+                 | Some s' => run fx s' rest
+                 | None => run fx s rest
                  end
   end.
 
-Fixpoint run_trace (s : st) (sch : list nat) : st * list bool :=
+Fixpoint run_trace (fx : bool) (s : st) (sch : list tid) : st * list bool :=
   match sch with
   | [] => (s, [])
-  | t :: rest => match step s t with
-                 | Some s' => let r := run_trace s' rest in (fst r, true :: snd r)
-                 | None => let r := run_trace s rest in (fst r, false :: snd r)
+  | t :: rest => match step fx s t with
+                 | Some s' => let r := run_trace fx s' rest in (fst r, true :: snd r)
+                 | None => let r := run_trace fx s rest in (fst r, false :: snd r)
                  end
   end.
 
-(* pool size 1: NewPeerConnection starts gathering with an empty pool.
+(* pool size 1: NewPeerConnection starts gathering (cycle 0) with an empty pool.
    pool size 0: gathering starts in the first SetLocalDescription, after its
-   flushCandidates call (pool nil, size 0). *)
-Definition init (poolsize : nat) (cands : list cand) (nflush : nat) : st :=
+   flushCandidates call (pool nil, size 0).
+   [first]: cycle 0; [more]: the cycles started by the restarts. *)
+Definition init (poolsize : nat) (first : list cand * bool) (more : list (list cand * bool))
+    (nflush : nat) : st :=
   {| gstate := GGathering;
      pool := if Nat.ltb 0 poolsize then Some [] else None;
-     psize := poolsize; nilp := false; out := [];
-     a_rest := cands; a_ph := AEnter; fl := repeat FStart nflush |}.
+     psize := poolsize; nilp := None; flushing := 0; out := [];
+     a_queue := cycle_items 0 first; a_ph := AEnter; fl := repeat FStart nflush;
+     ncyc := 1; cycles := more |}.
+
+(* one gathering cycle that completes, no restart *)
+Definition init1 (poolsize : nat) (cands : list cand) (nflush : nat) : st :=
+  init poolsize (cands, true) [] nflush.
 
 Definition fdone (f : fphase) : bool := match f with FDone => true | _ => false end.
-Definition adone (s : st) : bool := match a_ph s with ADone => true | _ => false end.
+Definition adone (s : st) : bool :=
+  match a_ph s, a_queue s, cycles s with AEnter, [], [] => true | _, _, _ => false end.
 Definition quiescent (s : st) : bool := adone s && forallb fdone (fl s).
 
-(* the property on the sequence of handler invocations *)
+(* ---------- the property on the sequence of handler invocations ---------- *)
+(* what the application saw of gathering cycle k *)
+Definition view (k : nat) (o : list item) : list (option cand) :=
+  map snd (filter (fun e => Nat.eqb (fst e) k) o).
+(* ... and of all of them *)
+Definition untagged (o : list item) : list (option cand) := map snd o.
+
 Definition emitted (o : list (option cand)) : list cand :=
   flat_map (fun e => match e with Some c => [c] | None => [] end) o.
 Definition nil_count (o : list (option cand)) : nat :=
   List.length (filter (fun e => match e with None => true | Some _ => false end) o).
-(* no candidate after the end-of-candidates marker *)
+(* no candidate after the end-of-candidates marker (and no second marker) *)
 Fixpoint nil_last (o : list (option cand)) : bool :=
   match o with
   | [] => true
@@ -167,30 +242,21 @@ Fixpoint nil_last (o : list (option cand)) : bool :=
   | Some _ :: t => nil_last t
   end.
 
-(* ---------- the guard of c24_partial_atomic_flush: a flushCandidates call
-   that is not interleaved with the agent (all its blocks in a row) ---------- *)
-Definition flush_atomic (s : st) (j : nat) : option st :=
-  match nth_error (fl s) j with
-  | Some FStart =>
-      let cs := match pool s with Some l => l | None => [] end in
-      Some {| gstate := gstate s; pool := None; psize := 0; nilp := false;
-              out := out s ++ map Some cs ++ (if nilp s then [None] else []);
-              a_rest := a_rest s; a_ph := a_ph s; fl := set_nth j FDone (fl s) |}
-  | _ => None
-  end.
-
-Definition stepF (s : st) (t : nat) : option st :=
+(* ---------- the guard of c24_cycles_full: an ICE restart happens when nothing
+   is pooled or being flushed (after the first SetLocalDescription, and not
+   concurrently with one that is still reporting pooled candidates) ---------- *)
+Definition stepG (s : st) (t : tid) : option st :=
   match t with
-  | O => agent_step s
-  | S j => flush_atomic s j
+  | TRestart => if pool_active s || Nat.ltb 0 (flushing s) then None else restart_step s
+  | _ => step true s t
   end.
 
-Fixpoint runF (s : st) (sch : list nat) : st :=
+Fixpoint runG (s : st) (sch : list tid) : st :=
   match sch with
   | [] => s
-  | t :: rest => match stepF s t with
-                 | Some s' => runF s' rest
-                 | None => runF s rest
+  | t :: rest => match stepG s t with
+                 | Some s' => runG s' rest
+                 | None => runG s rest
                  end
   end.
 
@@ -201,6 +267,9 @@ Fixpoint runF (s : st) (sch : list nat) : st :=
    block, between the yield points gather.flush.taken and gather.flush.emit)
    and emitted nil when it read complete; the nil path only returned when the
    pool was active. *)
+Inductive aphase0 :=
+| BEnter | BCandEmit (c : cand) | BNilPool | BNilEmit | BDone.
+
 Inductive fphase0 :=
 | F0Start
 | F0Taken (cs : list cand)
@@ -209,7 +278,7 @@ Inductive fphase0 :=
 
 Record st0 := {
   gstate0 : gst; pool0 : option (list cand); psize0 : nat;
-  out0 : list (option cand); a_rest0 : list cand; a_ph0 : aphase; fl0 : list fphase0
+  out0 : list (option cand); a_rest0 : list cand; a_ph0 : aphase0; fl0 : list fphase0
 }.
 
 Definition pool_active0 (s : st0) : bool :=
@@ -225,28 +294,28 @@ Definition step0 (s : st0) (t : nat) : option st0 :=
   match t with
   | O =>
       match a_ph0 s with
-      | AEnter =>
+      | BEnter =>
           match a_rest0 s with
           | c :: r =>
               if pool_active0 s then
                 Some {| gstate0 := gstate0 s;
                         pool0 := match pool0 s with Some l => Some (l ++ [c]) | None => None end;
-                        psize0 := psize0 s; out0 := out0 s; a_rest0 := r; a_ph0 := AEnter; fl0 := fl0 s |}
+                        psize0 := psize0 s; out0 := out0 s; a_rest0 := r; a_ph0 := BEnter; fl0 := fl0 s |}
               else Some {| gstate0 := gstate0 s; pool0 := pool0 s; psize0 := psize0 s; out0 := out0 s;
-                           a_rest0 := r; a_ph0 := ACandEmit c; fl0 := fl0 s |}
+                           a_rest0 := r; a_ph0 := BCandEmit c; fl0 := fl0 s |}
           | [] => Some {| gstate0 := GComplete; pool0 := pool0 s; psize0 := psize0 s; out0 := out0 s;
-                          a_rest0 := []; a_ph0 := ANilPool; fl0 := fl0 s |}
+                          a_rest0 := []; a_ph0 := BNilPool; fl0 := fl0 s |}
           end
-      | ACandEmit c =>
+      | BCandEmit c =>
           Some {| gstate0 := gstate0 s; pool0 := pool0 s; psize0 := psize0 s; out0 := out0 s ++ [Some c];
-                  a_rest0 := a_rest0 s; a_ph0 := AEnter; fl0 := fl0 s |}
-      | ANilPool =>
+                  a_rest0 := a_rest0 s; a_ph0 := BEnter; fl0 := fl0 s |}
+      | BNilPool =>
           Some {| gstate0 := gstate0 s; pool0 := pool0 s; psize0 := psize0 s; out0 := out0 s;
-                  a_rest0 := a_rest0 s; a_ph0 := if pool_active0 s then ADone else ANilEmit; fl0 := fl0 s |}
-      | ANilEmit =>
+                  a_rest0 := a_rest0 s; a_ph0 := if pool_active0 s then BDone else BNilEmit; fl0 := fl0 s |}
+      | BNilEmit =>
           Some {| gstate0 := gstate0 s; pool0 := pool0 s; psize0 := psize0 s; out0 := out0 s ++ [None];
-                  a_rest0 := a_rest0 s; a_ph0 := ADone; fl0 := fl0 s |}
-      | ADone => None
+                  a_rest0 := a_rest0 s; a_ph0 := BDone; fl0 := fl0 s |}
+      | BDone => None
       end
   | S j =>
       match nth_error (fl0 s) j with
@@ -282,4 +351,4 @@ Definition init0 (poolsize : nat) (cands : list cand) (nflush : nat) : st0 :=
   {| gstate0 := GGathering;
      pool0 := if Nat.ltb 0 poolsize then Some [] else None;
      psize0 := poolsize; out0 := [];
-     a_rest0 := cands; a_ph0 := AEnter; fl0 := repeat F0Start nflush |}.
+     a_rest0 := cands; a_ph0 := BEnter; fl0 := repeat F0Start nflush |}.
